@@ -1182,3 +1182,59 @@ func ruleReferenceRecursionGuard(c *core.Ctx, rule string) {
 		c.Undecided(rule, "meta/idl.RefType", ref.Obj().Pos(), "no method of RefType hands a question on to the type it designates: the rule cannot see how references are followed")
 	}
 }
+
+// ruleAuthStateGuarded: the authentication state of a connection lives in the
+// capability map held by its channel.  It is written by the authentication
+// service from the goroutine of its mailbox and read by the goroutine of the
+// connection for every incoming message: wherever the map held in a field of a
+// struct is asked Authenticated() or told SetAuthenticated(), a mutex of that
+// struct is held (exclusively for the write).  A Go map written and read
+// concurrently aborts the process, and a server that can be aborted by a
+// client that sends a message right behind its authenticate request does not
+// stay up.
+func ruleAuthStateGuarded(c *core.Ctx, lc *core.LockCache, rule string) {
+	read := c.Func("bus", "CapabilityMap", "Authenticated")
+	write := c.Func("bus", "CapabilityMap", "SetAuthenticated")
+	if read == nil || write == nil {
+		c.Undecided(rule, "bus.CapabilityMap", token.NoPos, "anchor not found (Authenticated / SetAuthenticated)")
+		return
+	}
+	n := 0
+	for _, fn := range srcFuncsOfPkg(c, "bus") {
+		for i, call := range core.Calls(fn) {
+			isW := core.IsCallTo(call, write)
+			if !isW && !core.IsCallTo(call, read) {
+				continue
+			}
+			recv := call.Common().Args[0]
+			p := core.AccessPath(recv)
+			if len(p.Fields) == 0 {
+				continue // a map of the function's own (a client negotiating, a fresh map being prepared)
+			}
+			if _, shared := core.RootOf(recv).(*ssa.Parameter); !shared {
+				if _, fv := core.RootOf(recv).(*ssa.FreeVar); !fv {
+					continue
+				}
+			}
+			n++
+			what := "read"
+			if isW {
+				what = "written"
+			}
+			key := fmt.Sprintf("auth-state@%s#%d", core.FuncKey(fn), i)
+			lf := lc.Get(fn)
+			ok := false
+			for class := range lf.MayHeld(call.(ssa.Instruction)) {
+				held, _ := lf.HeldAt(call.(ssa.Instruction), class, isW)
+				if held {
+					ok = true
+				}
+			}
+			c.Check(ok, rule, key, call.Pos(), "the authentication state is "+what+" with a mutex of its owner held",
+				"the authentication state kept in "+p.Fields[len(p.Fields)-1].Name()+" is "+what+" without a mutex: the connection's goroutine reads it for every message while the authentication service writes it from its own goroutine; a concurrent map read and map write aborts the whole server")
+		}
+	}
+	if n == 0 {
+		c.Undecided(rule, "bus.channel", token.NoPos, "no access to the authentication state of a channel found")
+	}
+}
